@@ -120,8 +120,8 @@ def disconnectPlayerAtFrame (s : P2P) (now : Nat) (handle : Nat) (lastFrame : Fr
 def trimEvents (s : P2P) : P2P :=
   { s with eventQueue := s.eventQueue.drop (s.eventQueue.length - MAX_EVENT_QUEUE_SIZE) }
 
-def handleEvent (s : P2P) (now : Nat) (ev : ProtoEvent) (handles : List Nat) (addr : Nat) : M P2P := do
-  let s ← match ev with
+def handleEventCore (s : P2P) (now : Nat) (ev : ProtoEvent) (handles : List Nat) (addr : Nat) : M P2P :=
+  match ev with
     | .synchronizing total count => pure (s.pushEvent (.synchronizing addr total count))
     | .networkInterrupted t => pure (s.pushEvent (.networkInterrupted addr t))
     | .networkResumed => pure (s.pushEvent (.networkResumed addr))
@@ -140,6 +140,10 @@ def handleEvent (s : P2P) (now : Nat) (ev : ProtoEvent) (handles : List Nat) (ad
         let sync ← s.sync.addRemoteInput player inp
         pure { s with sync }
       else pure s
+
+/-- `handle_event`: the event-specific part, then the queue is trimmed to its documented bound. -/
+def handleEvent (s : P2P) (now : Nat) (ev : ProtoEvent) (handles : List Nat) (addr : Nat) : M P2P := do
+  let s ← s.handleEventCore now ev handles addr
   return s.trimEvents
 
 /-- `poll_remote_clients`; `received` is what `socket.receive_all_messages()` returned. -/
@@ -421,7 +425,7 @@ def compareLocalChecksumsAgainstPeers (s : P2P) : P2P :=
       { s with eventQueue := s.eventQueue ++ evs,
                remotes := s.remotes.map fun (a', x) => if a' == a then (a', e') else (a', x) }) s
 
-def advanceFrameAfterPoll (s : P2P) (now : Nat) : M (P2P × Except GgrsError (List Request)) := do
+def advanceFrameCore (s : P2P) (now : Nat) : M (P2P × Except GgrsError (List Request)) := do
   if !s.running then return (s, .error .notSynchronized)
   if !(s.localPlayerHandles.all fun h => s.pendingLocalInputs.any (·.1 == h)) then
     return (s, .error .invalidRequest)
@@ -437,7 +441,15 @@ def advanceFrameAfterPoll (s : P2P) (now : Nat) : M (P2P × Except GgrsError (Li
   let s ← s.updatePlayerDisconnects now
   let (s, reqs) ← if lockstep then s.advanceLockstepFrame now reqs else s.advanceRollbackFrame now reqs
   let s ← s.checkWaitRecommendation
-  return (s.trimEvents, .ok reqs)
+  return (s, .ok reqs)
+
+/-- `advance_frame_after_poll`: on the success path the event queue is trimmed last (wait
+recommendations and desync notifications are queued outside of `handle_event`). -/
+def advanceFrameAfterPoll (s : P2P) (now : Nat) : M (P2P × Except GgrsError (List Request)) := do
+  let (s, r) ← s.advanceFrameCore now
+  match r with
+  | .ok _ => return (s.trimEvents, r)
+  | .error _ => return (s, r)
 
 def advanceFrame (s : P2P) (now : Nat) (received : List (Nat × Msg)) :
     M (P2P × Except GgrsError (List Request)) := do
